@@ -14,7 +14,7 @@
  *   F <exit> <hexout> <hexerr>      outcome otherwise
  *   NOISE <o|e> <salt> <mod>        append "noise=<h%mod>\n" to stdout/stderr
  *   DELAY <salt> <n> <ms>...        sleep ms[h % n] before answering
- *   FAULT <salt> <mod> <n> <cls>:<kind>...   kind: s(leep) t(sleep, SIGTERM ignored) p(spin) a(lloc) v(segv) k(ill) w(rapper with hanging child) w(rapper with hanging child)
+ *   FAULT <salt> <mod> <n> <cls>:<kind>...   kind: s(leep) t(sleep, SIGTERM ignored) p(spin) a(lloc) m(map shared) v(segv) k(ill) w(rapper with hanging child) w(rapper with hanging child)
  *   DIRECTIVE                       (behave <role> <exit> "<out>" "<err>") in the file wins
  * Hex strings may be "-" for the empty string.
  *
@@ -25,6 +25,7 @@
 #include <signal.h>
 #include <stdint.h>
 #include <stdio.h>
+#include <sys/mman.h>
 #include <stdlib.h>
 #include <string.h>
 #include <unistd.h>
@@ -109,6 +110,11 @@ int main(int argc, char **argv) {
     else i++;
   }
   if (argc < 2 || !spec) { fprintf(stderr, "usage: oracle_cmd --spec S --log L [--role R] file\n"); return 97; }
+#ifdef ONLY_ROLE
+  /* bin/main/oracle_cmd and bin/cc/oracle_cmd: two different programs with the same file
+     name; each refuses to act for the other (ddSMT must run the program it was given) */
+  if (strcmp(role, ONLY_ROLE)) { fprintf(stderr, "oracle_cmd: WRONG BINARY: built for role %s, run as %s\n", ONLY_ROLE, role); return 95; }
+#endif
   const char *file = argv[argc - 1];
   FILE *f = fopen(file, "rb");
   if (!f) { fprintf(stderr, "oracle_cmd: cannot open %s\n", file); return 98; }
@@ -180,6 +186,15 @@ int main(int argc, char **argv) {
     case 'a': { /* allocate "without bound": 600 MB is three times any --memout the checks use; a run that
                    gets that far was not limited at all and then answers normally */
       for (int q = 0; q < 150; q++) { char *m = malloc(1 << 22); if (!m) abort(); memset(m, 1, 1 << 22); }
+      break;
+    }
+    case 'm': { /* the same through shared anonymous mappings (not heap, not private): counted by an
+                   address-space limit, invisible to a data-segment limit */
+      for (int q = 0; q < 150; q++) {
+        char *m = mmap(NULL, 1 << 22, PROT_READ | PROT_WRITE, MAP_SHARED | MAP_ANONYMOUS, -1, 0);
+        if (m == MAP_FAILED) abort();
+        memset(m, 1, 1 << 22);
+      }
       break;
     }
     case 'v': raise(SIGSEGV); break;
